@@ -8,6 +8,8 @@ line grammar (all tokens space separated)
   COLL  := coll <n> ( <g|f|v> <start> <end> <coding 0|1> <idents|-> <k> ( <gs> <ge> <+|-> )* )*
            child i (0-based) gets guid UUID(int=i+1); its grand-child j gets UUID(int=1000+100*i+j)
            idents: comma separated, first / second identifier attribute in `_identifiers` order
+           strand token of a transcript: `+` / `-` [`c` = carries a CDS] [`p` = is_primary_tx]; a coding gene without
+           any `c` has a CDS on every non-empty transcript
   ops   := qpos SRC COLL <s|N> <e|N> <coding_only> <completely_within> <expand>
            qguid|qig|qtg|qfg SRC COLL <m> <guid number>*
            qfid SRC COLL <m> <identifier>*
@@ -107,15 +109,22 @@ def build(desc):
         id1 = idents[0] if len(idents) > 0 else None
         id2 = idents[1] if len(idents) > 1 else None
         objs = []
+        # strand token: `+` / `-`, optionally followed by `c` (this transcript carries a CDS) and / or `p`
+        # (is_primary_tx=True); a coding gene without any `c` has a CDS on every non-empty transcript
+        any_c = any("c" in st[1:] for _, _, st in gcs)
         for j, (gs, ge, st) in enumerate(gcs):
-            strand = Strand.PLUS if st == "+" else Strand.MINUS
+            strand = Strand.PLUS if st[0] == "+" else Strand.MINUS
             g = U(1000 + 100 * ci + j)
             if kind == "g":
-                if coding and ge > gs:
+                tx_coding = ("c" in st[1:]) if any_c else (coding and ge > gs)
+                primary = True if "p" in st[1:] else None
+                if tx_coding:
                     objs.append(TranscriptInterval([gs], [ge], strand, cds_starts=[gs], cds_ends=[ge],
-                                                   cds_frames=[CDSFrame.ZERO], guid=g, parent_or_seq_chunk_parent=parent))
+                                                   cds_frames=[CDSFrame.ZERO], guid=g, is_primary_tx=primary,
+                                                   parent_or_seq_chunk_parent=parent))
                 else:
-                    objs.append(TranscriptInterval([gs], [ge], strand, guid=g, parent_or_seq_chunk_parent=parent))
+                    objs.append(TranscriptInterval([gs], [ge], strand, guid=g, is_primary_tx=primary,
+                                                   parent_or_seq_chunk_parent=parent))
             elif kind == "f":
                 objs.append(FeatureInterval([gs], [ge], strand, guid=g, parent_or_seq_chunk_parent=parent))
             else:
@@ -133,7 +142,8 @@ def build(desc):
             vcs.append(c)
         if (c.start, c.end) != (start, end):
             raise BadDesc(f"child {ci}: span {c.start}-{c.end} described as {start}-{end}")
-        if kind == "g" and c.is_coding != coding:
+        # the description's coding flag = "has a coding transcript" (asked of the transcripts, not of the gene)
+        if kind == "g" and any(t.is_coding for t in objs) != coding:
             raise BadDesc(f"child {ci}: coding")
     ac = AnnotationCollection(feature_collections=fcs, genes=genes, variant_collections=vcs, start=bs, end=be,
                               parent_or_seq_chunk_parent=parent)
